@@ -32,6 +32,7 @@ def build_and_run(recs, wd):
     for k, r in alive.items():
         with open(os.path.join(moddir, "p%d.rs" % k), "w") as f:
             f.write(module_text(k, r))
+    os.makedirs(os.path.join(HARNESS, "examples"), exist_ok=True)
     main = os.path.join(HARNESS, "examples", "genbind.rs")
     for attempt in range(6):
         with open(main, "w") as f:
